@@ -333,7 +333,8 @@ static int pts_descend(const void *pa, const void*pb) {
     EbObjectWrapper* b = *(EbObjectWrapper**)pb;
     EbBufferHeaderType *ba = (EbBufferHeaderType *)(a->object_ptr);
     EbBufferHeaderType *bb = (EbBufferHeaderType *)(b->object_ptr);
-    return (int)(bb->pts - ba->pts);
+    // pts is a signed 64-bit value: the difference of two of them does not fit in an int
+    return (bb->pts > ba->pts) - (bb->pts < ba->pts);
 }
 
 static void push_undisplayed_frame(EncodeContext *encode_context_ptr, EbObjectWrapper *wrapper) {
